@@ -11,6 +11,7 @@ import LlgVerif.Model.Shared
 import LlgVerif.Model.TokRanges
 import Driver.Util
 import LlgVerif.Model.IntRange
+import LlgVerif.Spec.Cfg
 open LlgVerif Drv
 
 def wordsOf (l : List Nat) : List Word := l.map (fun n => BitVec.ofNat 32 n)
@@ -36,6 +37,7 @@ structure St where
   stopVocab : List (Nat × List UInt8) := []
   stopSt : StopSt := StopCfg.init
   sharedTbl : List Nat := []
+  cfgs : List (Nat × (Cfg.Gram Nat × Nat)) := []
 
 /-- DFA over byte classes: `cls[b]` in `0..k`, `trans[q*k + c]` = successor, `≥ n` = dead. -/
 structure TDfa where
@@ -390,6 +392,55 @@ def handleRanges (args : List String) : String :=
     | _, _ => "bad-op"
   | _ => "bad-op"
 
+/-- symbol: `n<k>` nonterminal, `t<lo>-<hi>` byte range (decimal) -/
+def parseCfgSym? (s : String) : Option (Cfg.Sym Nat) :=
+  if s.startsWith "n" then (s.drop 1).toString.toNat?.map Cfg.Sym.nt
+  else if s.startsWith "t" then
+    match (s.drop 1).toString.splitOn "-" with
+    | [lo, hi] => do
+      let lo ← lo.toNat?
+      let hi ← hi.toNat?
+      if lo < 256 ∧ hi < 256 then pure (Cfg.Sym.t lo.toUInt8 hi.toUInt8) else none
+    | _ => none
+  else none
+
+/-- rule: `<lhs>:<sym>,<sym>,...` (empty right-hand side: `<lhs>:`) -/
+def parseCfgRule? (s : String) : Option (Nat × List (Cfg.Sym Nat)) :=
+  match s.splitOn ":" with
+  | [l, r] => do
+    let l ← l.toNat?
+    if r.isEmpty then pure (l, []) else do
+      let syms ← (r.splitOn ",").mapM parseCfgSym?
+      pure (l, syms)
+  | _ => none
+
+def prefixesOf (w : List UInt8) : List (List UInt8) :=
+  (List.range (w.length + 1)).map (fun k => w.take k)
+
+/-- `cfg def <id> <start> <rule;rule;...>`; `cfg q <id> <hexword>` -> per prefix: accept bit, viable bit -/
+def handleCfg (st : St) (args : List String) : St × String :=
+  match args with
+  | ["def", id, start, rules] =>
+    match parseNat? id, parseNat? start, (rules.splitOn ";").mapM parseCfgRule? with
+    | some id, some start, some rs =>
+      if Cfg.allProductive rs then
+        ({ st with cfgs := (id, (rs, start)) :: st.cfgs.filter (·.1 ≠ id) }, s!"ok {rs.length}")
+      else (st, "unproductive")
+    | _, _, _ => (st, "bad-op")
+  | ["q", id, w] =>
+    match parseNat? id, parseHex? (if w = "-" then "" else w) with
+    | some id, some w =>
+      match st.cfgs.find? (·.1 = id) with
+      | some (_, (g, s)) =>
+        match Cfg.chart? (Cfg.preG g) [[Cfg.Sym.nt (s, false)], [Cfg.Sym.nt (s, true)]] w 200 with
+        | some c =>
+          (st, "ok " ++ String.join ((prefixesOf w).map (fun p =>
+            showBool (c.contains ([Cfg.Sym.nt (s, false)], p)) ++ showBool (c.contains ([Cfg.Sym.nt (s, true)], p)))))
+        | none => (st, "fuel")
+      | none => (st, "bad-op")
+    | _, _ => (st, "bad-op")
+  | _ => (st, "bad-op")
+
 def parseOptInt? (s : String) : Option (Option Int) :=
   if s = "none" then some none
   else if s.startsWith "-" then (s.drop 1).toString.toNat?.map (fun n => some (-(n : Int)))
@@ -475,6 +526,7 @@ def step (st : St) (line : String) : St × String :=
   | "shared" :: args => handleShared st args
   | "ranges" :: args => (st, handleRanges args)
   | "num" :: args => (st, handleNum args)
+  | "cfg" :: args => handleCfg st args
   | "rb" :: args => handleRb st args
   | ["reset"] => ({}, "ok")
   | _ => (st, "bad-op")
